@@ -155,6 +155,23 @@ def step2LateAdd (H : Hash) (cfg : Cfg) (s : St2) : Label2 → Option St2
   | .base (.taskRun t) => step2 H cfg { s with base := activeAdd s.base } (.base (.taskRun t))
   | l => step2 H cfg s l
 
+/-- NEGATIVE CONTROL 3.  `step2`, except that the read loop tests `shutdownRequested` after EVERY `ReadFrom`,
+    before it looks at the error (seeded change C06-r9-3): a Serve call that holds a datagram when the flag is
+    set returns `ErrServerShutdown` (with the deferred cleanup of any return) and the datagram is dropped. -/
+def step2FlagAfterRead (H : Hash) (cfg : Cfg) (s : St2) : Label2 → Option St2
+  | .serveSpawn i =>
+    match s.holds i with
+    | some _ =>
+      if s.base.sd then
+        let c := s.base.connOf.getD i 0
+        some { base := activeDone { s.base with serves := s.base.serves.set i (.returned .errShutdown),
+                                                 listeners := s.base.listeners.set c (s.base.listeners.getD c 0 - 1),
+                                                 log := s.base.log ++ [.serveReturned i] },
+               held := s.held.set i none }
+      else step2 H cfg s (.serveSpawn i)
+    | none => none
+  | l => step2 H cfg s l
+
 /-- run a schedule with any step function -/
 def runWith (stp : St2 → Label2 → Option St2) (s : St2) : List Label2 → St2
   | [] => s
